@@ -26,6 +26,7 @@ type c01Op struct {
 	Tag   int    `json:"tag,omitempty"`
 	Empty bool   `json:"empty,omitempty"`
 	Exp   bool   `json:"exp,omitempty"` // retained message already expired
+	Share bool   `json:"share,omitempty"` // provider "broker", v5 sessions: the filter goes on the wire as $share/g<s>/<filter>
 }
 
 type c01Case struct {
@@ -94,6 +95,11 @@ func (p *c01Prop) Gen(r *Rng, i int, tier string) interface{} {
 	if i%3 == 2 {
 		c.Provider = "mem"
 	}
+	broker := i%10 == 7
+	shared := map[string]bool{}
+	if broker {
+		c.Provider = "broker"
+	}
 	n := 6 + r.Intn(30)
 	var filters, topics []string // re-use what was used before: that is where pruning decides
 	tag := 0
@@ -154,6 +160,36 @@ func (p *c01Prop) Gen(r *Rng, i int, tier string) interface{} {
 		default:
 			c.Ops = append(c.Ops, c01Op{Op: "retq", F: pickF()})
 		}
+		if broker {
+			// what a client can put on the wire: no zero-length topic or filter, the expiry of a retained message
+			// is not in play; session 3 speaks MQTT 3.1.1 (no Retain Handling option); every subscription asks for
+			// QoS 2, so a retained copy arrives with the QoS it is stored with
+			op := &c.Ops[len(c.Ops)-1]
+			if op.F == "" {
+				op.F = "a"
+			}
+			if strings.HasPrefix(op.F, "$") && !strings.Contains(op.F, "/") {
+				op.F += "/a" // the packet library refuses a '$' name that is a single level
+			}
+			op.Exp = false
+			if op.Op == "sub" {
+				op.QoS = 2
+				if op.S == 3 {
+					op.RH = 0
+				}
+			}
+			if (op.Op == "sub" || op.Op == "unsub") && op.S != 3 {
+				// a (session, filter) pair is a shared subscription throughout the history or never: SUBSCRIBE and
+				// UNSUBSCRIBE then name the same subscription under any reading of the specification
+				key := fmt.Sprintf("%d|%s", op.S, op.F)
+				sh, ok := shared[key]
+				if !ok {
+					sh = r.Chance(25)
+					shared[key] = sh
+				}
+				op.Share = sh
+			}
+		}
 	}
 	return c
 }
@@ -183,6 +219,9 @@ func (s *recStub) Publish(m *mqttp.Publish, _ mqttp.QosType, _ mqttp.Subscriptio
 
 func (p *c01Prop) Run(ci interface{}) interface{} {
 	c := ci.(*c01Case)
+	if c.Provider == "broker" {
+		return p.runBroker(c)
+	}
 	obs := &c01Obs{}
 	prov, err := newProvider(c.Provider)
 	if err != nil {
@@ -348,6 +387,10 @@ func (p *c01Prop) Coq(ci interface{}, oi interface{}) string {
 			hs = append(hs, fmt.Sprintf("(HOp (OUnsub %s %d) None)", cBytes([]byte(op.F)), op.S))
 		case "ret":
 			hs = append(hs, fmt.Sprintf("(HOp (ORetain %s (mkMsg %d %d %s) %s) None)", cBytes([]byte(op.F)), op.Tag, op.QoS, cBool(op.Exp), cBool(op.Empty)))
+			if c.Provider == "broker" {
+				// sent by a client, a retained publish (also the empty one that clears) is routed like any other
+				hs = append(hs, fmt.Sprintf("(HPub %s %s)", cBytes([]byte(op.F)), cInts(st.Recv)))
+			}
 		case "pub":
 			hs = append(hs, fmt.Sprintf("(HPub %s %s)", cBytes([]byte(op.F)), cInts(st.Recv)))
 		case "retq":
